@@ -141,10 +141,90 @@ def emulated_packing_hits_finding(wm, dom_m, st0, seq, agents, flag):
     return False
 
 
-def gen_plan(rng, wm, dom_m, w, st0, length):
+def refusal_explained_by_finding(PlanConverter, dom, dom_m, wm, ptext, st0, lines, agents, flag):
+    """A ValueError("... not applicable") on a valid plan is the recorded finding KF-CONVERTER-INTERFERENCE only when the
+    converter's tracked state can have diverged from the plan's: i.e. when, before the step at which it refuses, it
+    packed members that interfere.  Located with the library itself: the shortest prefix of the plan that a FRESH
+    converter refuses, and the joint steps it produced for the prefix one action shorter; the reference model then
+    looks for a packed step whose members do not commute.  Returns (explained?, details)."""
+    last_ok, fail_at = None, None
+    for L in range(1, len(lines) + 1):
+        pp = Path(env.write_tmp("\n".join(lines[:L]) + "\n", suffix=".txt"))
+        try:
+            prob = lib.parse_problem_text(ptext, dom)
+            last_ok = PlanConverter(dom).convert_plan(prob, pp, list(agents), flag)
+        except ValueError as e:
+            if "not applicable" in str(e):
+                fail_at = L
+                break
+            return False, {"prefix_conversion": lib.exc_name(e)}
+        except BaseException as e:
+            return False, {"prefix_conversion": lib.exc_name(e)}
+    if fail_at is None:
+        return False, {"fresh_converter": "converts the whole plan without an error"}
+    if last_ok is None:
+        return False, {"shortest_refused_prefix": fail_at}
     st = st0
+    for i, j in enumerate(last_ok):
+        members = [(a.name, [str(x) for x in a.parameters]) for a in j.actions if a.name != "nop"]
+        try:
+            nxt = magen.commuting(wm, dom_m, st, members)
+        except BaseException:
+            nxt = None
+        if nxt is None:
+            return True, {"shortest_refused_prefix": fail_at, "interfering_step": i, "members": members}
+        st = nxt
+    return False, {"shortest_refused_prefix": fail_at, "joint_steps_before_it": len(last_ok), "interfering_steps_before_it": 0}
+
+
+LOOPS = [0]
+
+
+def pair_in_two_states(rng, wm, dom_m, st, tries=10):
+    """[A, B, Z, A, B]: the same two consecutive calls of different agents, once in a state in which B is applicable
+    before A (they may share a joint step) and once - after Z - in a state in which only A makes B applicable (they may
+    not).  Whether two calls can be grouped depends on the state, not on the calls.  None if the world has no such loop."""
+    def ok(an, c, s):
+        try:
+            return model.successor(wm, dom_m.actions[an], c, s)
+        except (model.Outside, model.Inconsistent):
+            return None
+    cs = magen.applicable_calls(wm, dom_m, st)
+    rng.shuffle(cs)
+    for an, c, st1 in cs[:tries]:
+        if set(st1[1]) != set(st[1]):
+            continue
+        bs = [b for b in magen.applicable_calls(wm, dom_m, st1) if b[1][0] != c[0] and ok(b[0], b[1], st) is not None]
+        rng.shuffle(bs)
+        for bn, d, st2 in bs[:tries]:
+            if set(st2[1]) != set(st[1]):
+                continue
+            zs = magen.applicable_calls(wm, dom_m, st2)
+            rng.shuffle(zs)
+            for zn, zc, st3 in zs[:2 * tries]:
+                if set(st3[1]) != set(st[1]) or ok(bn, d, st3) is not None:
+                    continue
+                st4 = ok(an, c, st3)
+                if st4 is None or set(st4[1]) != set(st[1]):
+                    continue
+                st5 = ok(bn, d, st4)
+                if st5 is None or set(st5[1]) != set(st[1]):
+                    continue
+                return [(an, c), (bn, d), (zn, zc), (an, c), (bn, d)], st5
+    return None
+
+
+def gen_plan(rng, wm, dom_m, w, st0, length):
+    st = prev_st = st0
     seq = []
     for _ in range(length):
+        if rng.random() < 0.08:
+            loop = pair_in_two_states(rng, wm, dom_m, st)
+            if loop:
+                seq += loop[0]
+                st = prev_st = loop[1]
+                LOOPS[0] += 1
+                continue
         cs = magen.applicable_calls(wm, dom_m, st)
         # prefer switching agents so that there is something to pack
         if seq and rng.random() < 0.7:
@@ -160,8 +240,28 @@ def gen_plan(rng, wm, dom_m, w, st0, length):
             t_prev = numeric_targets(dom_m.actions[pa], model.binding(dom_m.actions[pa], pc))
             clash = [c for c in cs if c[1][0] != pc[0] and numeric_targets(dom_m.actions[c[0]], model.binding(dom_m.actions[c[0]], c[1])) & t_prev]
             cs = clash or cs
+        elif seq and rng.random() < 0.5:
+            # enabler -> consumer: follow an action by one of another agent that needs a fact the first one adds - whether
+            # or not the fact already held before (the same pair of calls is packable in one state and not in another)
+            pa, pc = seq[-1]
+            try:
+                adds, _, _ = model.collect_effects(wm, dom_m.actions[pa].eff, prev_st, model.binding(dom_m.actions[pa], pc))
+                without = (frozenset(st[0]) - {a for a, _ in adds}, st[1])
+                cons = []
+                for c in cs:
+                    if c[1][0] == pc[0]:
+                        continue
+                    try:
+                        if model.successor(wm, dom_m.actions[c[0]], c[1], without) is None:
+                            cons.append(c)
+                    except (model.Outside, model.Inconsistent):
+                        pass
+                cs = cons or cs
+            except (model.Outside, model.Inconsistent, model.ModelError):
+                pass
         an, call, nxt = rng.choice(cs)
         seq.append((an, call))
+        prev_st = st
         st = nxt
     return seq
 
@@ -181,10 +281,11 @@ def run(ctx):
             continue
         dom_m = model.RefDomain.from_text(dtext)
         wm = model.World(dom_m, w.objects)
+        shared_converter = None
         for pi in range(8 if thorough else 4):
             st0 = magen.ma_initial_state(rng, w)
             ptext = sx.plain(w.problem_ast(st0))
-            seq = gen_plan(rng, wm, dom_m, w, st0, rng.choice([2, 4, 8, 20, 40]) if thorough else rng.choice([2, 5, 12]))
+            seq = gen_plan(rng, wm, dom_m, w, st0, rng.choice([2, 4, 8, 20, 40]) if thorough else rng.choice([2, 5, 12, 24]))
             if len(seq) < 2:
                 continue
             numbered = rng.random() < 0.5
@@ -197,17 +298,28 @@ def run(ctx):
                 wit = {"domain": dtext, "problem": ptext, "plan": lines, "agents": w.agents, "should_validate_concurrency_constraint": flag}
                 try:
                     prob = lib.parse_problem_text(ptext, dom)
-                    joint = PlanConverter(dom).convert_plan(prob, plan_path, list(w.agents), flag)
+                    # a converter is constructed per domain and serves many plans: most conversions go through one that has
+                    # already converted other plans (other problems, the other flag value) of this domain
+                    if shared_converter is not None and rng.random() < 0.7:
+                        conv = shared_converter
+                        ctx.count("conversions_by_a_reused_converter")
+                        wit["converter"] = "reused after other plans of the domain"
+                    else:
+                        conv = shared_converter = PlanConverter(dom)
+                    joint = conv.convert_plan(prob, plan_path, list(w.agents), flag)
                 except BaseException as e:
                     ctx.count("compared:conservation")
-                    if isinstance(e, ValueError) and "not applicable" in str(e) and \
-                            emulated_packing_hits_finding(wm, dom_m, st0, seq, list(w.agents), flag):
+                    explained, how = False, {}
+                    if isinstance(e, ValueError) and "not applicable" in str(e):
+                        explained, how = refusal_explained_by_finding(PlanConverter, dom, dom_m, wm, ptext, st0, lines, w.agents, flag)
+                        ctx.count("refusals_located_by_prefix_conversions")
+                    if explained:
                         # the converter packed an interfering pair (recorded finding), its tracked state diverged
                         # from the plan's and it then refused a later action of the valid plan
-                        ctx.known_finding("KF-CONVERTER-INTERFERENCE", dict(wit, observed=lib.exc_name(e),
-                                                                            note="refusal after packing an interfering pair (emulated)"))
+                        ctx.known_finding("KF-CONVERTER-INTERFERENCE", dict(wit, observed=lib.exc_name(e), located=how,
+                                                                            note="refusal after packing an interfering pair"))
                     else:
-                        ctx.violation("convert:raises-on-a-valid-plan", dict(wit, observed=lib.exc_name(e)))
+                        ctx.violation("convert:raises-on-a-valid-plan", dict(wit, observed=lib.exc_name(e), located=how))
                     continue
                 ctx.feat({"concurrency-constraint:" + str(flag), "numbered" if numbered else "bare", "numeric" if w.funcs else "strips"})
                 acting = {c[0] for _, c in seq}
@@ -219,6 +331,7 @@ def run(ctx):
                 check_conversion(ctx, wm, dom_m, st0, seq, list(w.agents), joint, wit)
                 if wi == 0 and pi == 0:
                     ctx.sample({"plan": lines[:10], "agents": w.agents, "joint_steps": len(joint)})
+    ctx.count("plans_segments_with_one_pair_in_two_states", LOOPS[0])
     shipped(ctx, PlanConverter)
 
 
